@@ -45,7 +45,7 @@ def load_findings():
         return json.load(fh)
 
 
-def spawn_shards(pid, tier, vseed, nshards, work, hashseed_mode, only):
+def start_shards(pid, tier, vseed, nshards, work, hashseed_mode, only):
     procs = []
     for i in range(nshards):
         env = dict(os.environ)
@@ -56,6 +56,10 @@ def spawn_shards(pid, tier, vseed, nshards, work, hashseed_mode, only):
         cmd = [PY, "-m", "pv.worker", pid, tier, str(vseed), str(i), str(nshards), out, only or ""]
         log = open(os.path.join(work, "shard_%d.log" % i), "w")
         procs.append((i, out, subprocess.Popen(cmd, cwd=VERIF, env=env, stdout=log, stderr=subprocess.STDOUT), log))
+    return procs
+
+
+def collect_shards(procs, work):
     results = []
     for i, out, p, log in procs:
         p.wait()
@@ -215,9 +219,12 @@ def main(argv=None):
     work = os.path.join(VERIF, ".work", pid, "%d" % os.getpid())
     os.makedirs(work, exist_ok=True)
     try:
-        pre = run_fixed_and_known(mod, pid, findings)
-        results = spawn_shards(pid, args.tier, vseed, args.shards,
-                               work, getattr(mod, "HASHSEEDS", "fixed"), args.clauses)
+        # the shards run while the main process replays the committed regression inputs and the listed findings
+        procs = start_shards(pid, args.tier, vseed, args.shards, work, getattr(mod, "HASHSEEDS", "fixed"), args.clauses)
+        try:
+            pre = run_fixed_and_known(mod, pid, findings)
+        finally:
+            results = collect_shards(procs, work)
     except Exception as e:  # noqa: BLE001
         print("HARNESS-ERROR property=%s %s: %s" % (pid, type(e).__name__, e))
         import traceback
